@@ -531,7 +531,10 @@ Record step_facts (p : pstate) (exo : list (string * exo_spec)) (k : nat) (ts ts
   st_deco : forall d rhs, In (d, rhs) (p_deco p) -> evalF (envf e') rhs = Ok (getv d e');
   st_keys : forall x, has x e' = true -> In x (map fst exo) \/ In x (nonexo_names p);
   st_stop : keep_going 1%float (p_tol p) = true ->
-            exists u w r m, sweep p u = Ok (w, r, false) /\ leb r (p_tol p) = true /\
+            forall I : env -> nat -> Prop,
+            (forall cur n new rel had, I cur n -> sweep p cur = Ok (new, rel, had) -> I (next_env p cur new n) (S n)) ->
+            (forall ini, start_env p exo ts k = Ok ini -> I ini 0) ->
+            exists u w r m, I u m /\ sweep p u = Ok (w, r, false) /\ leb r (p_tol p) = true /\
               (forall x, In x (endo_names p) -> lookup x e' = lookup x (next_env p u w m)) /\
               (forall x, ~ In x (endo_names p) -> has x u = true -> lookup x u = lookup x e')
 }.
@@ -607,11 +610,16 @@ Proof.
       destruct (sf_keys _ _ _ _ _ SF x Hh') as [H|[H|H]]; [now left| |];
         right; unfold nonexo_names; apply in_or_app; [right; apply in_or_app; now left|now left].
     + right. apply Hin. apply in_or_app; right; apply in_or_app; now right.
-  - intros Hkg.
-    destruct (loop_witness p (off_endo p ini) (off_endo_pres p ini) (S (p_maxiter p)) ini 1%float false 0 [] HI0 El)
-      as [[K1 _]|[u [w [r [m [pre [[W1a W1b] [W2 [W3 [W4 _]]]]]]]]]]; [congruence|].
+  - intros Hkg I HIp HIi.
+    assert (Hpres2 : forall cur n new rel had,
+              (off_endo p ini cur n /\ I cur n) -> sweep p cur = Ok (new, rel, had) ->
+              (off_endo p ini (next_env p cur new n) (S n) /\ I (next_env p cur new n) (S n))).
+    { intros cur n new rel had [Ha Hb] Hsw. split; [eapply off_endo_pres; eauto|eapply HIp; eauto]. }
+    assert (HI02 : off_endo p ini ini 0 /\ I ini 0) by (split; [exact HI0|apply HIi; exact Es]).
+    destruct (loop_witness p (fun c n => off_endo p ini c n /\ I c n) Hpres2 (S (p_maxiter p)) ini 1%float false 0 [] HI02 El)
+      as [[K1 _]|[u [w [r [m [pre [[[W1a W1b] WI] [W2 [W3 [W4 _]]]]]]]]]]; [congruence|].
     fold (run_loop p ini) in W4.
-    exists u, w, r, m. split; [exact W2|]. split.
+    exists u, w, r, m. split; [exact WI|]. split; [exact W2|]. split.
     { unfold keep_going in W3. now apply negb_false_iff in W3. }
     split.
     + intros x Hx. rewrite <- W4.
@@ -620,4 +628,17 @@ Proof.
       apply has_true_iff in Hh. destruct Hh as [v Hv]. rewrite Hv. now apply D4a.
     + intros x Hx Hh. apply has_true_iff in Hh. destruct Hh as [v Hv]. rewrite Hv.
       symmetry. apply Hoff; [exact Hx|]. now rewrite <- (W1a x Hx).
+Qed.
+
+(** the new value of every equation after a sweep (evaluation errors keep the old value) *)
+Lemma sweep_eqs_vals_gen endo old : forall new rel had new' rel' had',
+  sweep_eqs endo old new rel had = Ok (new', rel', had') -> NoDup (map fst endo) ->
+  forall x e, In (x, e) endo -> exists v h h', eval_eq old x e h = Ok (v, h') /\ lookup x new' = Some v.
+Proof.
+  induction endo as [|[y e'] r IH]; simpl; intros new rel had new' rel' had' H Hnd x e Hin; [tauto|].
+  inversion Hnd as [|? ? Hy Hnd']; subst.
+  destruct (eval_eq old y e' had) as [[nv h]|] eqn:E; [|discriminate].
+  destruct Hin as [Heq|Hin]; [|eauto].
+  inversion Heq; subst. exists nv, had, h. split; [exact E|].
+  rewrite (sweep_eqs_frame _ _ _ _ _ _ _ _ H x Hy). apply lookup_set_eq.
 Qed.
